@@ -8,7 +8,9 @@
 //                                    emb: embedding rows) -- exact dyadics (vh::num)
 //          [P=<hash>@<values>|...]   emb only: the matrix handed to the eigensolver (observer hook)
 //          [W=r:c:a;...]             trace=1: which worksharing iteration `a` produced entry (r,c) (decoded from coded
-//                                    callback values), c = * for a whole row
+//                                    callback values; geo/geol: from the position of the zero in the row), c = * for a row
+//          [nb=a,b;c,d;...]          trace=1, weight matrices: the neighbour lists (the stored pattern of V must be the
+//                                    union of the triplet blocks of the iterations the table lists)
 //          [calls=a:b;...]           trace=1: the (first, second) argument pairs the callback was invoked with
 //      or  exc:<what>
 // The input data are derived from `seed` by SplitMix64 (coordinates k/1024 in [-4,4)), so a case is its parameters.
@@ -450,6 +452,28 @@ std::string run_case(std::map<std::string, std::string>& f)
                         (void)b;
                     }
             }
+            else if (r == "geo" || r == "geol")
+            {
+                // row k of the result is the Dijkstra run from the k-th source: its only zero sits in the column of that
+                // source (distinct points), which identifies the iteration that produced the row
+                for (Eigen::Index i = 0; i < M.rows(); i++)
+                {
+                    long src = -1, zeros = 0;
+                    for (Eigen::Index j = 0; j < M.cols(); j++)
+                        if (M(i, j) == 0.0)
+                        {
+                            src = j;
+                            zeros++;
+                        }
+                    long a = -1;
+                    if (zeros == 1)
+                        a = (r == "geo") ? src
+                                         : (long)(std::find(landmarks.begin(), landmarks.end(), (IndexType)src) - landmarks.begin());
+                    if (!wtrace.empty())
+                        wtrace += ";";
+                    wtrace += std::to_string(i) + ":*:" + (zeros == 1 ? std::to_string(a) : "?");
+                }
+            }
             else if (r == "tri")
             {
                 std::set<IndexType> lm(landmarks.begin(), landmarks.end());
@@ -490,6 +514,17 @@ std::string run_case(std::map<std::string, std::string>& f)
         {
             out << (first ? "" : "|") << std::hex << kv.first << std::dec << "@" << kv.second;
             first = false;
+        }
+    }
+    if (trace && sparse_out)
+    {
+        // the neighbour lists the routine was given: python predicts from them the block of triplets of every iteration
+        out << " nb=";
+        for (size_t i = 0; i < nb.size(); i++)
+        {
+            out << (i ? ";" : "");
+            for (size_t j = 0; j < nb[i].size(); j++)
+                out << (j ? "," : "") << nb[i][j];
         }
     }
     if (trace)
